@@ -600,6 +600,7 @@ def corpus():
     for order in (("b.svc", "c.svc"), ("c.svc", "b.svc")):
         c.append(Scn(True, True, abc, r3, 3600, L("7 C 192.0.2.7 5007 10.0.0.9 6667", "7 P :+x alan pw", "-1 X a.svc 7_1 :OK", "7 ! timeout", "-1 X %s 7_1 :OK alan:17" % order[0], "-1 X %s 7_1 :OK alan:18" % order[1],
                        "7 N h7.example.org", "7 u id7", "7 n Nick7", "7 U u7 :r", "7 D"), "timeout while data are missing, then two stragglers (%s first)" % order[0]))
+    c.append(slot_reuse_history()); c.append(slot_reuse_history('login')); c.append(slot_reuse_history(expire=True))
     return c
 
 def mode_family():
@@ -628,13 +629,13 @@ def mode_family():
                             out.append(Scn(True, False, svcs, [], 0, L(*ls), "mode family %s / %s, first answer %s, second %s, data %s" % (m1, m2, r1, r2, "first" if early else "last")))
     return out
 
-def slot_reuse_history():
-    """D30 (open finding): a.svc answers client 5 and is then dropped by a reload (its slot is released: nobody awaits it); a second
+def slot_reuse_history(newtype='dronecheck', expire=False):
+    """D30 (repaired in 993eb0b): a.svc answers client 5 and is then dropped by a reload (its slot is released: nobody awaits it); a second
        reload adds d.svc, which takes that slot; client 5, still registering, carries the bits of the old occupant"""
     rules = [dict(name='10-viad', xreply_ok='d.svc', **{'class': 'viaD'}), dict(name='20-rest', **{'class': 'rest'})]
-    return Scn(True, True, [('a.svc', 'login')], rules, 0,
-               L("5 C 1.2.3.4 1 10.0.0.1 6667", "5 P :+x acct pw", "-1 X a.svc 5_1 :OK acct:1") + [('R', [], rules, 0), ('R', [('d.svc', 'dronecheck')], rules, 0)] +
-               L("5 N h.example.org", "5 u id", "5 n Nick", "5 U u :r", "5 D"), "a released slot is taken by a new service while a client still carries the old occupant's bits")
+    return Scn(True, True, [('a.svc', 'login')], rules, 3600 if expire else 0,
+               L("5 C 1.2.3.4 1 10.0.0.1 6667", "5 P :+x acct pw", "-1 X a.svc 5_1 :OK acct:1") + [('R', [], rules, 3600 if expire else 0), ('R', [('d.svc', newtype)], rules, 3600 if expire else 0)] +
+               L("5 N h.example.org", "5 u id", "5 n Nick", "5 U u :r", *(["5 ! timeout"] if expire else []), "5 D"), "a released slot is taken by a new service while a client still carries the old occupant's bits")
 
 # ------------------------------------------------------------------------------------------------
 # real timers: the same history once with real waiting (libevent's one-shot request timers fire by themselves) and once with the
